@@ -12,8 +12,6 @@
 EXTENDS Linalg
 VARIABLE l
 
-Ok(b, ev, o) == IF b THEN TRUE ELSE Reject(l, ev.case, ev.outs[o].cfg)
-
 \* ---- C10 --------------------------------------------------------------------------------------
 InverseOK(x, r) ==
     LET n == x.n
@@ -67,20 +65,32 @@ QROK(x, r) ==
                  IN /\ r.PA = PA
                     /\ JudgeRatio(r.r_orth, CBound)                         \* ||Q'Q - I|| / (n eps cond(A))
                     /\ (JudgeRatio(r.r_row, CBound) \/ JudgeRatio(r.r_col, CBound))      \* ||Q R - pivoted A|| / (n eps ||A||)
-                    /\ (r.hasdet = 1 => JudgeRatio(r.r_det, CBound))        \* |det_QR - prod diag R| / (n eps |prod|)
+                    /\ (r.hasdet = 1 => JudgeRatio(r.r_det, CBound))        \* |det_QR - prod diag R| / (n eps |prod|); hasdet = 2: prod outside the range of T, skipped
                     /\ IF r.exact = 1 THEN (QRExact(PA, x.sA, r.Qs, r.qs, r.Rs, r.rs, n) <=> (r.r_orth = 0 /\ r.r_row = 0)) ELSE TRUE
                     /\ IF r.detexact = 1 THEN DiagProduct(r.Rs, n) = r.dets ELSE TRUE
             ELSE FALSE
 
-Judge(ev, okf(_, _)) == \A o \in 1..Len(ev.outs) : Ok(okf(ev.in, ev.outs[o].out), ev, o)
+\* Named deviation (finding D16): solve<SimpleInvPiv>(A, B) with a MATRIX right-hand side undoes the pre-pivot row-wise
+\* (reconstruct) instead of column-wise (reconstruct_colwise, as the vector overload does): it returns X with
+\* (P A)(P X) = B for the static pre-pivot P.  r_dev is the residual of exactly that identity, pdev the permutation used for it.
+SolveDev(x, r) == IF /\ x.strategy = "SimpleInvPiv" /\ x.rhs = "mat" /\ r.hasdev = 1
+                     /\ r.pdev = StaticPivot(x.A, x.n) /\ JudgeRatio(r.r_dev, CBound)
+                  THEN "rowwise_reconstruct" ELSE ""
+NoDev(x, r) == ""
+
+Judge(ev, okf(_, _), devf(_, _)) ==
+    \A o \in 1..Len(ev.outs) :
+       IF okf(ev.in, ev.outs[o].out) THEN TRUE
+       ELSE LET tag == devf(ev.in, ev.outs[o].out)
+            IN IF tag # "" THEN RejectTag(l, ev.case, ev.outs[o].cfg, tag) ELSE Reject(l, ev.case, ev.outs[o].cfg)
 
 Init == l = 1
 Next == /\ l <= Len(Tr)
         /\ LET ev == Tr[l] IN
-             CASE ev.e = "Inverse" -> Judge(ev, InverseOK)
-               [] ev.e = "LU" -> Judge(ev, LUOK)
-               [] ev.e = "Solve" -> Judge(ev, SolveOK)
-               [] ev.e = "QR" -> Judge(ev, QROK)
+             CASE ev.e = "Inverse" -> Judge(ev, InverseOK, NoDev)
+               [] ev.e = "LU" -> Judge(ev, LUOK, NoDev)
+               [] ev.e = "Solve" -> Judge(ev, SolveOK, SolveDev)
+               [] ev.e = "QR" -> Judge(ev, QROK, NoDev)
                [] ev.e \in {"Fault", "CompileFail"} -> \A o \in 1..Len(ev.outs) : Reject(l, ev.case, ev.outs[o].cfg)
         /\ l' = l + 1
 Spec == Init /\ [][Next]_l
